@@ -710,6 +710,8 @@ func isTargetPkg(pkg *ssa.Package) bool {
 var stdInitAllowed = map[string]bool{
 	"unicode": true, "unicode/utf8": true, "encoding/base64": true, "strconv": true,
 	"math/bits": true, "net/http/internal/ascii": true, "internal/itoa": true,
+	"strings": true, "bytes": true, "hash/fnv": true, "slices": true, "sort": true,
+	"context": true, // error values (Canceled, DeadlineExceeded) and the closed channel
 }
 
 func (i *interpreter) allowInit(pkg *ssa.Package) bool {
